@@ -196,8 +196,10 @@ def main(argv=None):
             except Exception as e:   # a broken classifier suppresses nothing
                 fid = None
                 v['classifier_error'] = repr(e)
-        if fid is not None and fid in known:
-            seen_known.setdefault(fid, []).append(v)
+        fids = [fid] if isinstance(fid, str) else list(fid or [])
+        if fids and all(f in known for f in fids):
+            for f in fids:
+                seen_known.setdefault(f, []).append(v)
         else:
             real.append(v)
 
